@@ -186,6 +186,175 @@ class OpEq(Spec):
         return r["failures"][0] if r["failures"] else None
 
 
+
+# =============================================================================== Block and Region levels
+def b_callee(level):
+    """x.is_structurally_equivalent(y, context) of the level below; the context content at the k-th call is recorded in the ghost chain CD/CV."""
+
+    def fn(ex, st, args, kw):
+        from pyvc.engine import Res
+
+        x, y, c = args[0].z, args[1].z, args[2].z
+        d, v = st.dict_dom(c), st.dict_vals(c)
+        k = st.ghost["cnt"]
+        st.ghost["CD"] = z3.Store(st.ghost["CD"], k, d)
+        st.ghost["CV"] = z3.Store(st.ghost["CV"], k, v)
+        st.ghost["cnt"] = z3.simplify(k + 1)
+        st.dict_store(c, CTX_DOM[level](x, y, d, v), CTX_VAL[level](x, y, d, v))
+        return [Res("val", VBool(EQ[level](x, y, d, v)), st)]
+
+    fn.modifies = ["dict#dom", "dict#val"]
+    fn.ghost_modifies = ["CD", "CV", "cnt"]
+    return fn
+
+
+class LevelEq(Spec):
+    """
+    Block.is_structurally_equivalent (ops per block instantiated, arguments and results symbolic) and
+    Region.is_structurally_equivalent (blocks per region and ops per block instantiated):
+      True  => counts agree, argument types agree, and every child pair is equivalent IN A CONTEXT WHERE the block(s), ALL their arguments and
+               ALL results of their operations are already registered (values and blocks may be used before their definition);
+      False => some count / argument type disagrees or some child pair is not equivalent in that context.
+    """
+
+    prop, file = PROP, CORE
+    modifies = ["dict#dom", "dict#val"]
+
+    def __init__(self, level):
+        self.level = level
+        self.qualname = ("Block" if level == "block" else "Region") + ".is_structurally_equivalent"
+        child = "op" if level == "block" else "block"
+        self.calls = {".is_structurally_equivalent": Builtin(b_callee(child), f"callee contract: uninterpreted equivalence of the {child} level as a function of the context content")}
+
+    @property
+    def globals(self):
+        def getattr_(ex, st, base, attr):
+            if attr == "type":
+                return VRef(TYPE(base.z), "Attribute")
+            if attr in ("args", "ops", "results", "blocks"):
+                return self.view.get((attr, base.z.get_id()))
+            return None
+
+        def isinst(ex, st, v, cls):
+            return True if isinstance(cls, VGlobal) and cls.text in ("Block", "Region") else None
+
+        return {"__getattr__": getattr_, "__isinstance__": isinst}
+
+    # ---- symbolic shape: blocks = [(block ref, args seq, [(op ref, results seq)])] for self and other
+    def _mk_block(self, tag, nops):
+        b = z3.Int(f"{tag}")
+        args = seq(f"{tag}_args")
+        ops = [(z3.Int(f"{tag}_op{k}"), seq(f"{tag}_op{k}_results")) for k in range(nops)]
+        self.view[("args", b.get_id())] = args
+        self.view[("ops", b.get_id())] = VTuple([VRef(o, "Operation") for o, _ in ops])
+        for o, r in ops:
+            self.view[("results", o.get_id())] = r
+        return (b, args, ops)
+
+    def setup(self, st, inst):
+        self.view = {}
+        st.ghost["CD"] = z3.Const("CD0", z3.ArraySort(I, AIB))
+        st.ghost["CV"] = z3.Const("CV0", z3.ArraySort(I, AII))
+        st.ghost["cnt"] = z3.IntVal(0)
+        c = st.declare_input("context", z3.Int("context"))
+        if self.level == "block":
+            self.A = [self._mk_block("a", inst["ops"][0])]
+            self.B = [self._mk_block("b", inst["ops"][1])]
+            me, ot = self.A[0][0], self.B[0][0]
+        else:
+            self.A = [self._mk_block(f"a_blk{i}", n) for i, n in enumerate(inst["a"])]
+            self.B = [self._mk_block(f"b_blk{i}", n) for i, n in enumerate(inst["b"])]
+            me, ot = z3.Int("self"), z3.Int("other")
+            self.view[("blocks", me.get_id())] = VTuple([VRef(b, "Block") for b, _, _ in self.A])
+            self.view[("blocks", ot.get_id())] = VTuple([VRef(b, "Block") for b, _, _ in self.B])
+        st.declare_input("self", me)
+        st.declare_input("other", ot)
+        return {"self": VRef(me, "Block" if self.level == "block" else "Region"), "other": VRef(ot, "Block" if self.level == "block" else "Region"),
+                "context": VRef(c, "dict", ("dict", "ref", "ref")), "_c": c}
+
+    def _all_seqs(self):
+        return [s for side in (self.A, self.B) for (_, args, ops) in side for s in [args] + [r for _, r in ops]]
+
+    def pre(self, st, a):
+        j = z3.Int("lp!j")
+        refs = [b for side in (self.A, self.B) for (b, _, ops) in side] + [o for side in (self.A, self.B) for (_, _, ops) in side for o, _ in ops]
+        out = [A("lengths-nonneg", z3.And(*[s.n >= 0 for s in self._all_seqs()])),
+               A("objects", z3.And(a["_c"] != 0, a["self"].z != 0, a["other"].z != 0, *[r != 0 for r in refs])),
+               A("values-are-objects", z3.And(*[forall([j], s.arr[j] != 0) for s in self._all_seqs()]))]
+        return out
+
+    # ---- registration facts ------------------------------------------------------
+    def _registered(self, D, V, pairs_seq, pairs_obj):
+        """Everything that must be in the context before the children are compared."""
+        j = z3.Int("rg!j")
+        cs = []
+        for sa, sb in pairs_seq:
+            cs.append(forall([j], z3.Implies(z3.And(j >= 0, j < sa.n, j < sb.n), D[sa.arr[j]])))
+        for x, y in pairs_obj:
+            cs.append(D[x])
+        return z3.And(*cs) if cs else z3.BoolVal(True)
+
+    def inv(self, n, entry, st, a, lv):
+        # every symbolic loop of both functions is a registration loop `for x, y in zip(xs, ys): context[x] = y` (the argument loop of Block
+        # additionally compares types and may return False from inside)
+        c = a["_c"]
+        k = lv["k"]
+        it = lv["iter"]
+        xs = it.parts[0]
+        de, ve = entry.dict_dom(c), entry.dict_vals(c)
+        dn, vn = st.dict_dom(c), st.dict_vals(c)
+        x, j, r = z3.Ints("li!x li!j li!r")
+        out = [A("registered-prefix", forall([j], z3.Implies(z3.And(j >= 0, j < k), dn[xs.arr[j]]))),
+               A("context-only-grows", forall([x], z3.Implies(de[x], dn[x]))),
+               A("other-dicts-untouched", forall([r], z3.Implies(r != c, z3.And(st.dict_dom(r) == entry.dict_dom(r), st.dict_vals(r) == entry.dict_vals(r))))),
+               A("no-child-compared-yet", st.ghost["cnt"] == entry.ghost["cnt"])]
+        if self.level == "block" and n == 0:
+            ys = it.parts[1]
+            out.append(A("argument-types-agree-so-far", forall([j], z3.Implies(z3.And(j >= 0, j < k), TYPE(xs.arr[j]) == TYPE(ys.arr[j])))))
+        return out
+
+    def _spec(self, old, st, a):
+        c = a["_c"]
+        CD, CV = st.ghost["CD"], st.ghost["CV"]
+        j = z3.Int("ls!j")
+        if self.level == "block":
+            (ba, aa, opsa), (bb, ab, opsb) = self.A[0], self.B[0]
+            counts = z3.And(aa.n == ab.n, z3.BoolVal(len(opsa) == len(opsb)))
+            types = forall([j], z3.Implies(z3.And(j >= 0, j < aa.n), TYPE(aa.arr[j]) == TYPE(ab.arr[j])))
+            children = [(oa, ob) for (oa, _), (ob, _) in zip(opsa, opsb)]
+            reg = self._registered(CD[0], CV[0], [(aa, ab)] + [(ra, rb) for (_, ra), (_, rb) in zip(opsa, opsb)], [(ba, bb)])
+            child = "op"
+        else:
+            counts = z3.BoolVal(len(self.A) == len(self.B))
+            types = z3.BoolVal(True)
+            children = [(ba, bb) for (ba, _, _), (bb, _, _) in zip(self.A, self.B)]
+            seqs, objs = [], []
+            for (ba, aa, opsa), (bb, ab, opsb) in zip(self.A, self.B):
+                objs.append((ba, bb))
+                seqs.append((aa, ab))
+                seqs += [(ra, rb) for (_, ra), (_, rb) in zip(opsa, opsb)]
+            reg = self._registered(CD[0], CV[0], seqs, objs)
+            child = "block"
+        eqs = [EQ[child](x, y, CD[k], CV[k]) for k, (x, y) in enumerate(children)]
+        return counts, types, reg, eqs, children
+
+    def post(self, old, st, a, res):
+        counts, types, reg, eqs, children = self._spec(old, st, a)
+        rz = res.z if isinstance(res, VBool) else z3.BoolVal(bool(res))
+        n = len(children)
+        out = [C("True-only-if-counts-and-argument-types-agree", z3.Implies(rz, z3.And(counts, types))),
+               C("True-only-if-every-child-pair-is-equivalent-in-its-context", z3.Implies(rz, z3.And(st.ghost["cnt"] == n, *eqs) if eqs else z3.BoolVal(True))),
+               C("children-are-compared-in-a-context-where-blocks-arguments-and-all-results-are-registered",
+                 z3.Implies(z3.And(rz, z3.BoolVal(n > 0)), reg)),
+               C("False-only-if-something-disagrees", z3.Implies(z3.Not(rz), z3.Or(z3.Not(counts), z3.Not(types),
+                                                                                    *[z3.And(st.ghost["cnt"] > k, z3.Not(e)) for k, e in enumerate(eqs)])))]
+        return out
+
+    def native_search(self, inst, seed):
+        r = N03.explore("quick", seed)
+        return r["failures"][0] if r["failures"] else None
+
+
 class OpEqNotOp(Spec):
     """other is not an Operation -> False."""
 
@@ -212,6 +381,12 @@ def make_specs(tier):
     n = OpEqNotOp()
     n.instances = [{}]
     specs.append(n)
+    b = LevelEq("block")
+    b.instances = [{"ops": (x, y)} for x, y in itertools.product(range(0, 3), repeat=2)]
+    specs.append(b)
+    r = LevelEq("region")
+    r.instances = [{"a": x, "b": y} for x, y in [((), ()), ((1,), (1,)), ((1,), ()), ((0, 2), (0, 2)), ((2, 1), (2, 1)), ((1, 1), (1,)), ((1,), (2,))]]
+    specs.append(r)
     return specs
 
 
@@ -220,7 +395,9 @@ ASSUMPTIONS = [
     "types are Int-coded: equal type attributes <=> equal codes",
     "nested calls are replaced by uninterpreted relations EQ_REGION/EQ_BLOCK/EQ_OP of (x, y, context content): the recursion (depth induction) is assumed",
     "the number of regions per op is instantiated 0..2 x 0..2; operand, successor and result lists are symbolic",
-    "Block- and Region-level functions, reflexivity/symmetry/clone clauses: bounded stand-in (generated programs, mutations, clones, independent isomorphism oracle)",
+    "Block and Region levels: ops per block and blocks per region are instantiated (0..2), argument and result lists are symbolic; the children's own verdicts are the uninterpreted "
+    "relations of the level below evaluated on the context content at the call (ghost chain CD/CV)",
+    "reflexivity/symmetry/clone clauses: bounded stand-in (generated programs, mutations, clones, independent isomorphism oracle)",
 ]
 
 SPECS = make_specs(os.environ.get("VERIF_TIER", "quick"))
